@@ -517,6 +517,13 @@ func (e *vEngine) handle(ctx context.Context, method string, arg interface{}) (i
 		}
 	}()
 	r := <-h.release
+	if r[0] == "!close" {
+		// Close the transport from inside the handler, then wait for the script to release us again
+		e.ev.add("close-begin")
+		e.xp.Close()
+		e.ev.add("close-end")
+		r = <-h.release
+	}
 	close(h.done)
 	e.ev.add("hret/%d", h.id)
 	var res interface{}
@@ -846,6 +853,40 @@ func (e *vEngine) op(f []string) {
 			}
 			e.feedResponse(seq, want, res)
 		}
+	case "replytonowait": // like replyto but only if the call frame is already on the wire
+		e.conn.mu.Lock()
+		ws := append([][]byte(nil), e.conn.writes...)
+		e.conn.mu.Unlock()
+		for _, w := range ws {
+			if q, nn, ok := vCallFrameSeq(w); ok && nn == f[1] {
+				e.feedResponse(q, f[1], "-")
+				break
+			}
+		}
+	case "closefromhandler": // the first running handler calls Close on the transport it is served by
+		e.hmu.Lock()
+		hs := append([]*vHandlerState(nil), e.handlers...)
+		e.hmu.Unlock()
+		if len(hs) == 0 {
+			e.ev.add("close-begin")
+			go e.xp.Close()
+		} else {
+			select {
+			case hs[0].release <- [2]string{"!close", "-"}:
+			default:
+			}
+		}
+	case "closewait": // a Close issued now must return (also when others are in progress)
+		done := make(chan struct{})
+		go func() { e.xp.Close(); close(done) }()
+		e.waitFor("close-returns", func() bool {
+			select {
+			case <-done:
+				return true
+			default:
+				return false
+			}
+		})
 	case "holdclose":
 		e.conn.mu.Lock()
 		e.conn.closeHold = make(chan struct{})
